@@ -57,6 +57,10 @@ pub struct Case {
     /// rules are judged (the terminal packet is the last one)
     #[serde(default)]
     pub slow: Option<Slow>,
+    /// not a connection script at all: the status phase against a passage child process whose status service is
+    /// the HTTP adapter in front of a scripted endpoint (see c06_http.rs)
+    #[serde(default)]
+    pub http_status: Option<crate::checks::c06_http::Scenario>,
 }
 
 #[derive(Clone, Debug, Serialize, Deserialize, PartialEq)]
@@ -732,6 +736,7 @@ impl Check for C06 {
                 items,
                 select_seed,
                 slow: None,
+                http_status: None,
             })
             .prop_flat_map(|case| {
                 // a share of login cases: the legal flow up to Client Information, then silence while a slow discovery
@@ -757,6 +762,16 @@ impl Check for C06 {
         tier.pick(8_000, 300_000)
     }
     fn run(&self, case: &Case) -> (Verdict, CaseInfo) {
+        if let Some(sc) = &case.http_status {
+            let mut info = CaseInfo::default();
+            info.class("status_service_behind_the_http_adapter");
+            info.nontrivial = true;
+            return match crate::checks::c06_http::run(sc) {
+                Ok(_) => (Verdict::Pass, info),
+                Err((sig, msg)) if sig == "inconclusive" => (Verdict::Inconclusive(msg), info),
+                Err((sig, msg)) => (Verdict::Fail { sig, msg }, info),
+            };
+        }
         let (out, steps, reached_routing, now0, now1) = run_case(case);
         let mut info = CaseInfo::default();
         info.class(match case.intent {
@@ -770,8 +785,63 @@ impl Check for C06 {
         let v = decide(case, &out, &steps, reached_routing, &mut info);
         (v, info)
     }
+    fn extra(&self, tier: Tier, seed: u64, stats: &crate::runner::Stats) -> Vec<(String, String, serde_json::Value)> {
+        // the status phase with the status service behind the real HTTP adapter (child process, real time)
+        let scenarios = crate::checks::c06_http::scenarios(seed, tier.pick(6, 48));
+        let found = std::sync::Mutex::new(Vec::new());
+        let judged = std::sync::atomic::AtomicU64::new(0);
+        let inconclusive = std::sync::atomic::AtomicU64::new(0);
+        for batch in scenarios.chunks(6) {
+            std::thread::scope(|s| {
+                for sc in batch {
+                    let (found, judged, inconclusive) = (&found, &judged, &inconclusive);
+                    s.spawn(move || {
+                        let run = || crate::checks::c06_http::run(sc);
+                        match run() {
+                            Ok(n) => {
+                                judged.fetch_add(u64::from(n), std::sync::atomic::Ordering::Relaxed);
+                            }
+                            Err((sig, _)) if sig == "inconclusive" => {
+                                inconclusive.fetch_add(1, std::sync::atomic::Ordering::Relaxed);
+                            }
+                            // real time: only a failure that repeats counts
+                            Err((sig, msg)) => match run() {
+                                Err((sig2, msg2)) if sig2 == sig => {
+                                    let case = Case {
+                                        cfg: ConnCfg::default(),
+                                        intent: 1,
+                                        name: String::new(),
+                                        uuid: uuid::Uuid::nil(),
+                                        host: String::new(),
+                                        port: 0,
+                                        ping: 0,
+                                        session_cookie: false,
+                                        auth_cookie: false,
+                                        adapters: AdapterScript::default(),
+                                        items: vec![],
+                                        select_seed: 0,
+                                        slow: None,
+                                        http_status: Some(sc.clone()),
+                                    };
+                                    found.lock().unwrap().push((sig, format!("{msg2} (first run: {msg})"), serde_json::to_value(&case).unwrap()));
+                                }
+                                _ => {
+                                    inconclusive.fetch_add(1, std::sync::atomic::Ordering::Relaxed);
+                                }
+                            },
+                        }
+                    });
+                }
+            });
+        }
+        stats.set_extra("http_status_adapter_scenarios", serde_json::json!(scenarios.len()));
+        stats.set_extra("http_status_adapter_pings_judged", serde_json::json!(judged.load(std::sync::atomic::Ordering::Relaxed)));
+        stats.set_extra("http_status_adapter_scenarios_inconclusive", serde_json::json!(inconclusive.load(std::sync::atomic::Ordering::Relaxed)));
+        stats.evaluations.fetch_add(scenarios.len() as u64, std::sync::atomic::Ordering::Relaxed);
+        found.into_inner().unwrap()
+    }
     fn rule(&self) -> String {
-        "sequences of 1-12 serverbound frames: the legal next packet (weight 1/2), any serverbound packet of any phase with generated fields, raw frames with unknown or arbitrary ids, repeats; handshake next-state in {-1,0,1,2,3,4,2^31-1}; status value with every optional field present or absent, or an error; ping payload any u64. non-trivial = the sequence contains at least one deviation from the legal flow, or reaches a terminal packet (Pong / Transfer / Disconnect); distinct = distinct case".into()
+        "sequences of 1-12 serverbound frames: the legal next packet (weight 1/2), any serverbound packet of any phase with generated fields, raw frames with unknown or arbitrary ids, repeats; handshake next-state in {-1,0,1,2,3,4,2^31-1}; status value with every optional field present or absent, or an error; ping payload any u64. extra: 6 (quick) / 48 (thorough) real-time scenarios with the status service behind the HTTP adapter of a passage child process (successive refreshes answered with a status, null, an error or only after a delay; pings between the refreshes). non-trivial = the sequence contains at least one deviation from the legal flow, or reaches a terminal packet (Pong / Transfer / Disconnect); distinct = distinct case".into()
     }
     fn assumptions(&self) -> Vec<String> {
         vec![
